@@ -202,6 +202,10 @@ func (s *sender) recvAck(ackNo uint32) (uint32, error) {
 	}
 
 	for s.ackNo < newAckNo {
+		if len(s.frames) == 0 {
+			// acknowledgement for frames that were never sent: nothing to release
+			break
+		}
 		s.onSuccess(ackNo)
 		s.ackNo++
 		s.frames = s.frames[1:]
